@@ -93,6 +93,13 @@ def cq_cluster(c):
     return "(Build_cluster %s %s %s %s)" % (pols, secs, aps, svcs)
 
 
+OP = {"add": "Add", "update": "Update", "update-irrelevant": "Update", "delete": "Delete"}
+
+
+def events_of(o):
+    return [x for x in o.get("events") or [] if not x.get("err")]
+
+
 def deps_of(o):
     return [{"kind": r["kind"], "key": r["ns"] + "/" + r["name"]} for r in o["rev"] if r["dep"]]
 
@@ -106,8 +113,10 @@ def case_to_coq(c):
     revs = L("(Build_rev %s %s %s %s %s %s)" % (KIND[r["kind"]], S(r["ns"]), S(r["name"]), B(r["direct"]), L(S(v) for v in r["via"]),
                                                 B(r["req"])) for r in o["rev"])
     pf = L("(%s, %s, %s)" % (S(p["skel"]["ns"]), S(p["skel"]["name"]), B(p["found"])) for p in o["pols"])
-    return "res_case %d %s %s %s %s %s %s %s" % (c["id"], env, cq_cluster(c), cq_resource(o["skel"]), L(cq_dep(d) for d in deps_of(o)),
-                                                 L(cq_dep(d) for d in o["lookups"]), revs, pf)
+    evs = L("(Build_ev %s %s %s %s %s %s %s)" % ((KIND[x["kind"]],) + tuple(S(t) for t in x["key"].split("/", 1)) +
+                                                  (OP[x["op"]], B(x["relevant"]), B(x["regen"]), B(x["stale"]))) for x in events_of(o))
+    return "res_case %d %s %s %s %s %s %s %s %s" % (c["id"], env, cq_cluster(c), cq_resource(o["skel"]), L(cq_dep(d) for d in deps_of(o)),
+                                                    L(cq_dep(d) for d in o["lookups"]), revs, pf, evs)
 
 
 def usable(c):
@@ -151,7 +160,7 @@ def positions(sk, kind, key):
 
     def ups(us, ns, bns, tag):
         for u in us:
-            if ns + "/" + u["service"] == key:
+            if ns + "/" + u["service"] == key and not (kind == "endpoints" and u.get("use_cluster_ip")):
                 out.add(tag + "-upstream")
             if u.get("backup") and u.get("backup_port") and key in [b + "/" + u["backup"] for b in bns]:
                 out.add(tag + "-upstream-backup")
@@ -203,15 +212,36 @@ def judge(run, cases, res):
         run.cov["dependencies_observed"] = run.cov.get("dependencies_observed", 0) + len(deps_of(o))
         run.cov["model_dependencies"] = run.cov.get("model_dependencies", 0) + ndeps
         run.cov["reverse_lookups_compared"] = run.cov.get("reverse_lookups_compared", 0) + len(o["rev"])
+        evs = events_of(o)
+        run.cov["events_delivered"] = run.cov.get("events_delivered", 0) + len(evs)
+        for x in o.get("events") or []:
+            if x.get("err"):
+                run.failing({"kind": "harness-event-error", "dep": x["kind"], "op": x["op"]}, [c],
+                            "case %d: event %s %s %s could not be driven: %s" % (cid, x["op"], x["kind"], x["key"], x["err"][:200]),
+                            theorem="correspondence harness c15", found_input=x["err"].startswith("panic"))
         if not spec:
             deps = deps_of(o)
-            d = deps[row[10]] if 0 <= row[10] < len(deps) else {"kind": "?", "key": "?"}
-            pos = positions(o["skel"], d["kind"], d["key"])
-            run.failing({"kind": "unreachable-dependency", "dep": d["kind"], "position": pos}, [c],
-                        "case %d (%s): the extended resource %s depends on %s %s (position %s) but the reverse path does not map it back"
-                        % (cid, c["class"], o["res_key"], d["kind"], d["key"], pos), theorem="Refs.Cases.spec_ok")
+            if 0 <= row[10] < len(deps):            # Refs.Cases.spec_ok: a dependency the reverse look-ups do not find
+                d = deps[row[10]]
+                pos = positions(o["skel"], d["kind"], d["key"])
+                run.failing({"kind": "unreachable-dependency", "dep": d["kind"], "position": pos}, [c],
+                            "case %d (%s): the extended resource %s depends on %s %s (position %s) but the reverse path does not map it back"
+                            % (cid, c["class"], o["res_key"], d["kind"], d["key"], pos), theorem="Refs.Cases.spec_ok")
+            seen = set()
+            for x in evs:                            # Refs.Cases.ev_spec_ok: every stale event, one report per signature
+                if not x["stale"]:
+                    continue
+                pos = positions(o["skel"], x["kind"], x["key"])
+                sig = {"kind": "stale-after-event", "dep": x["kind"], "op": x["op"], "position": pos}
+                if json.dumps(sig, sort_keys=True) in seen:
+                    continue
+                seen.add(json.dumps(sig, sort_keys=True))
+                run.failing(sig, [c], "case %d (%s): after the %s of %s %s (position %s) went through the real handler and lbc.sync, the "
+                            "configuration of %s is not what a regeneration from the stores produces (regenerated=%s)"
+                            % (cid, c["class"], x["op"], x["kind"], x["key"], pos, o["res_key"], x["regen"]), theorem="Refs.Cases.ev_spec_ok")
         if not agree:
-            parts = [n for n, v in zip(("deps-in-model", "model-in-lookups", "reverse-lookups", "policy-lookups", "reaches-composition"), row[5:10]) if not v]
+            parts = [n for n, v in zip(("deps-in-model", "model-in-lookups", "reverse-lookups", "policy-lookups", "reaches-composition",
+                                        "theorem-hypotheses", "events"), row[5:10] + row[12:14]) if not v]
             run.failing({"kind": "correspondence", "class": c["class"], "part": "+".join(parts)}, [c],
                         "model and implementation disagree on case %d (%s): %s" % (cid, c["class"], parts),
                         theorem="correspondence Refs.Model ~ internal/k8s create*Ex / reference_checkers.go", found_input=False)
@@ -283,6 +313,8 @@ def replay(run, path):
             print("   impl reverse path misses: %s" % json.dumps([x for x in o["rev"] if x["dep"] and not (
                 (x["direct"] and x["req"]) if x["kind"] == "endpoints" else (x["direct"] or x["via"]))]))
         if r:
-            print("   model-agrees=%d spec=%d model-deps=%d parts(deps-in-model,model-in-lookups,rev,pols,reaches)=%s refuted-positions=%d"
-                  % (r[1], r[2], r[4], r[5:10], r[11]))
+            print("   impl events: %s" % json.dumps([[x["op"], x["kind"], x["key"], "regen" if x["regen"] else "no-regen",
+                                                      "STALE" if x["stale"] else "fresh"] for x in o.get("events") or []]))
+            print("   model-agrees=%d spec=%d model-deps=%d parts(deps-in-model,model-in-lookups,rev,pols,reaches,hyps,events)=%s refuted-positions=%d"
+                  % (r[1], r[2], r[4], r[5:10] + r[12:14], r[11]))
     judge(run, cases, res)
